@@ -8,7 +8,23 @@ expressions built from names, None/True/False/str/int constants, empty `{}`/`[]`
 expressions, one-generator list comprehensions, `tuple(x)`/`list(x)`, and calls of other translated functions.
 
 The translation is purely syntax-directed; statements after an `if` that does not return are duplicated into both branches
-(continuation style), so that every function becomes ONE Lean expression."""
+(continuation style), so that every function becomes ONE Lean expression.
+
+FRAGMENTS (`translate_fragment`): a pure, total statement range of a function that is too effectful to translate whole.
+A fragment is designated by `(function, kind, start)`; the function must have exactly ONE top-level `for` statement (no `else`):
+
+* kind `"after_loop"`: all statements of the function body after that `for` statement.  The Lean definition returns what the
+  fragment `return`s.  Parameters: the local variables that may be read before the fragment assigns them, in order of first read.
+* kind `"loop_body_from"`: the statements of the loop body from the ONE top-level statement of the body whose `ast.unparse` text starts
+  with `start`, to the end of the body.  `continue` and running off the end end the iteration, `break` leaves the loop.
+  A variable the fragment assigns is a *temporary* when it is mentioned nowhere else in the function and is never read in the
+  fragment before it is assigned; every other assigned variable is *carried*.  Parameters: first the variables that are read but
+  never assigned (order of first read), then the carried variables (order of first assignment).  Result: the Python tuple
+  `(carried variables in that order…, broke)` as a `PyVal.list`, `broke` = `PyVal.bool true` iff the iteration ended in `break`.
+
+Additional statements/expressions in fragments: `break`/`continue` (loop bodies), dict displays with constant string keys, `dict(x)`,
+`str(x)`, and `x["k"] = v` — the latter only while `x` is bound to a dict the fragment itself has just built (`dict(...)`/display) and
+that has not been used as a bare value since (no aliasing: value semantics and CPython's reference semantics then coincide)."""
 from __future__ import annotations
 
 import ast
@@ -53,6 +69,8 @@ class Translator:
         if isinstance(e, ast.Name):
             if e.id not in self.locals and e.id in self.consts:
                 return self.E(self.consts[e.id])
+            if e.id not in self.locals:
+                raise Unsupported(f"name {e.id} is neither a local variable nor an inlinable module constant")
             return ident(e.id)
         if isinstance(e, ast.Constant):
             v = e.value
@@ -67,6 +85,10 @@ class Translator:
             raise Unsupported(f"constant {v!r}")
         if isinstance(e, ast.Dict) and not e.keys:
             return "(PyVal.dict [])"
+        if isinstance(e, ast.Dict):
+            if not all(isinstance(k, ast.Constant) and isinstance(k.value, str) for k in e.keys):
+                raise Unsupported("dict display with a non-constant or non-string key (or `**`)")
+            return "(Rbacx.Py.dictOf [" + ", ".join(f"({lean_str(k.value)}, {self.E(v)})" for k, v in zip(e.keys, e.values)) + "])"
         if isinstance(e, (ast.List, ast.Tuple)):
             return "(PyVal.list [" + ", ".join(self.E(x) for x in e.elts) + "])"
         if isinstance(e, ast.BoolOp):
@@ -130,6 +152,10 @@ class Translator:
                         return "(PyVal.list [])"
                     if len(e.args) == 1:
                         return f"(PyVal.list (Rbacx.Py.iter {self.E(e.args[0])}))"
+                if f.id == "dict" and len(e.args) == 1 and not e.keywords and f.id not in self.locals:
+                    return f"(Rbacx.Py.dictCopy {self.E(e.args[0])})"
+                if f.id == "str" and len(e.args) == 1 and not e.keywords and f.id not in self.locals:
+                    return f"(Rbacx.Py.strOf {self.E(e.args[0])})"
                 if f.id in self.known and not e.keywords:
                     return "(" + " ".join([ident(f.id)] + [self.E(a) for a in e.args]) + ")"
             raise Unsupported(f"call {ast.unparse(e)}")
@@ -197,18 +223,257 @@ class Translator:
         params = " ".join(f"({ident(a.arg)} : PyVal)" for a in allargs)
         return f"def {ident(fn.name)} {params} : PyVal :=\n  {self.S(fn.body, '  ')}\n"
 
+    # ------------------------------------------------------------------ fragments (see the module docstring)
+    @staticmethod
+    def _escaping(e: ast.expr) -> set[str]:
+        """names used as bare values in `e` (anything but the receiver of a `.get(...)` call): binding or storing such a value aliases it"""
+        out: set[str] = set()
 
-def translate(source: str, names: list[str]) -> dict[str, str]:
-    """{python function name: Lean definition text} in the order given (callees first)"""
+        def walk(n: ast.AST) -> None:
+            if isinstance(n, ast.Call) and isinstance(n.func, ast.Attribute) and n.func.attr == "get" and isinstance(n.func.value, ast.Name):
+                for a in n.args:
+                    walk(a)
+                return
+            if isinstance(n, ast.Name):
+                out.add(n.id)
+            for c in ast.iter_child_nodes(n):
+                walk(c)
+        walk(e)
+        return out
+
+    @staticmethod
+    def _builds_dict(e: ast.expr) -> bool:
+        return isinstance(e, ast.Dict) or (isinstance(e, ast.Call) and isinstance(e.func, ast.Name) and e.func.id == "dict"
+                                           and len(e.args) <= 1 and not e.keywords)
+
+    def SF(self, stmts: list[ast.stmt], ind: str, fresh: frozenset, outs: list[str] | None) -> str:
+        """statements of a fragment; `outs` is None for a fragment that returns, else the carried variables of a loop-body fragment;
+        `fresh` = the variables currently bound to a dict built in the fragment and not aliased since"""
+        def leave(broke: bool) -> str:
+            return "(PyVal.list [" + ", ".join([ident(v) for v in outs] + [f"(PyVal.bool {'true' if broke else 'false'})"]) + "])"
+        if not stmts:
+            return "PyVal.none" if outs is None else leave(False)
+        st, rest = stmts[0], stmts[1:]
+        if isinstance(st, ast.Pass) or (isinstance(st, ast.Expr) and isinstance(st.value, ast.Constant) and isinstance(st.value.value, str)):
+            return self.SF(rest, ind, fresh, outs)
+        if isinstance(st, ast.Return):
+            if outs is not None:
+                raise Unsupported("return inside a loop-body fragment")
+            return self.E(st.value) if st.value is not None else "PyVal.none"
+        if isinstance(st, ast.Break):
+            if outs is None:
+                raise Unsupported("break outside a loop-body fragment")
+            return leave(True)
+        if isinstance(st, ast.Continue):
+            if outs is None:
+                raise Unsupported("continue outside a loop-body fragment")
+            return leave(False)
+        if isinstance(st, (ast.Assign, ast.AnnAssign)):
+            tgt = st.targets[0] if isinstance(st, ast.Assign) else st.target
+            if (isinstance(st, ast.Assign) and len(st.targets) != 1) or st.value is None:
+                raise Unsupported(f"assignment {ast.unparse(st)[:60]}")
+            esc = self._escaping(st.value)
+            if isinstance(tgt, ast.Name):
+                fresh2 = fresh - esc - {tgt.id}
+                if self._builds_dict(st.value):
+                    fresh2 = fresh2 | {tgt.id}
+                return f"let {ident(tgt.id)} := {self.E(st.value)}\n{ind}{self.SF(rest, ind, fresh2, outs)}"
+            if isinstance(tgt, ast.Subscript) and isinstance(tgt.value, ast.Name) and isinstance(tgt.slice, ast.Constant) \
+                    and isinstance(tgt.slice.value, str) and isinstance(st, ast.Assign):
+                x = tgt.value.id
+                if x not in fresh or x in esc:
+                    raise Unsupported(f"item assignment to {x}, which is not (or no longer provably) an unaliased dict built in this fragment")
+                return (f"let {ident(x)} := Rbacx.Py.setItem {ident(x)} {lean_str(tgt.slice.value)} {self.E(st.value)}\n"
+                        f"{ind}{self.SF(rest, ind, fresh - esc, outs)}")
+            raise Unsupported(f"assignment {ast.unparse(st)[:60]}")
+        if isinstance(st, ast.If):
+            a = self.SF(st.body + rest, ind + "  ", fresh, outs)
+            b = self.SF(st.orelse + rest, ind + "  ", fresh, outs)
+            return f"if ({self.E(st.test)}).truthy then\n{ind}  {a}\n{ind}else\n{ind}  {b}"
+        raise Unsupported(f"statement {ast.unparse(st)[:60]}")
+
+
+# ---------------------------------------------------------------------- fragment designation and variable analysis
+
+def _reads(node: ast.AST, local: set[str], out: list[str], bound: frozenset = frozenset()) -> None:
+    """local variables loaded in `node`, in field order, comprehension variables excluded"""
+    if isinstance(node, ast.Name):
+        if isinstance(node.ctx, ast.Load) and node.id in local and node.id not in bound:
+            out.append(node.id)
+        return
+    if isinstance(node, (ast.ListComp, ast.SetComp, ast.GeneratorExp, ast.DictComp)):
+        b = set(bound)
+        for g in node.generators:
+            _reads(g.iter, local, out, frozenset(b))
+            b |= {n.id for n in ast.walk(g.target) if isinstance(n, ast.Name)}
+            for c in g.ifs:
+                _reads(c, local, out, frozenset(b))
+        for part in ([node.key, node.value] if isinstance(node, ast.DictComp) else [node.elt]):
+            _reads(part, local, out, frozenset(b))
+        return
+    for c in ast.iter_child_nodes(node):
+        _reads(c, local, out, bound)
+
+
+def _flow(stmts: list[ast.stmt], local: set[str], defined: set[str], free: list[str], assigned: list[str]) -> set[str] | None:
+    """definite-assignment analysis of a loop-free statement list: appends to `free` the variables that MAY be read before the
+    fragment has assigned them and to `assigned` the variables it assigns; returns the variables definitely assigned when control
+    runs off the end, or None when it never does (every path ends in return/break/continue)"""
+    def read(e: ast.AST | None) -> None:
+        if e is None:
+            return
+        got: list[str] = []
+        _reads(e, local, got)
+        for v in got:
+            if v not in defined and v not in free:
+                free.append(v)
+    defined = set(defined)
+    for st in stmts:
+        if isinstance(st, ast.Pass) or (isinstance(st, ast.Expr) and isinstance(st.value, ast.Constant)):
+            continue
+        if isinstance(st, (ast.Assign, ast.AnnAssign)):
+            tgt = st.targets[0] if isinstance(st, ast.Assign) else st.target
+            if (isinstance(st, ast.Assign) and len(st.targets) != 1) or st.value is None:
+                raise Unsupported(f"assignment {ast.unparse(st)[:60]}")
+            read(st.value)
+            if isinstance(tgt, ast.Name):
+                defined.add(tgt.id)
+                if tgt.id not in assigned:
+                    assigned.append(tgt.id)
+            elif isinstance(tgt, ast.Subscript) and isinstance(tgt.value, ast.Name):
+                read(tgt.value)
+                read(tgt.slice)
+            else:
+                raise Unsupported(f"assignment {ast.unparse(st)[:60]}")
+        elif isinstance(st, ast.If):
+            read(st.test)
+            d1 = _flow(st.body, local, defined, free, assigned)
+            d2 = _flow(st.orelse, local, defined, free, assigned)
+            if d1 is None and d2 is None:
+                return None
+            defined = d2 if d1 is None else d1 if d2 is None else (d1 & d2)
+        elif isinstance(st, ast.Return):
+            read(st.value)
+            return None
+        elif isinstance(st, (ast.Break, ast.Continue)):
+            return None
+        else:
+            raise Unsupported(f"statement {ast.unparse(st)[:60]}")
+    return defined
+
+
+def _function(tree: ast.Module, name: str) -> ast.FunctionDef:
+    for n in tree.body:
+        if isinstance(n, ast.FunctionDef) and n.name == name:
+            return n
+    raise Unsupported(f"function {name} not found")
+
+
+_NOT_IN_FRAGMENTS = (ast.For, ast.While, ast.Try, ast.With, ast.FunctionDef, ast.AsyncFunctionDef, ast.ClassDef, ast.Lambda, ast.Global,
+                     ast.Nonlocal, ast.NamedExpr, ast.Delete, ast.AugAssign, ast.Raise, ast.Await, ast.Yield, ast.YieldFrom, ast.Import,
+                     ast.ImportFrom, ast.Assert, ast.Match)
+
+
+def fragment(tree: ast.Module, fn_name: str, kind: str, start: str | None = None) -> dict:
+    """{"stmts", "inputs", "outputs" (None for a fragment that returns), "locals", "temporaries"} of the designated fragment"""
+    fn = _function(tree, fn_name)
+    loops = [i for i, st in enumerate(fn.body) if isinstance(st, ast.For)]
+    if len(loops) != 1:
+        raise Unsupported(f"{fn_name}: {len(loops)} top-level for statements (a fragment designator needs exactly one)")
+    loop = fn.body[loops[0]]
+    if loop.orelse:
+        raise Unsupported(f"{fn_name}: for/else")
+    args = fn.args
+    if args.vararg or args.kwarg:
+        raise Unsupported(f"signature of {fn_name}")
+    params = {a.arg for a in args.posonlyargs + args.args + args.kwonlyargs}
+    local = params | {n.id for n in ast.walk(fn) if isinstance(n, ast.Name) and isinstance(n.ctx, ast.Store)}
+    if kind == "after_loop":
+        stmts = fn.body[loops[0] + 1:]
+    elif kind == "loop_body_from":
+        hits = [i for i, st in enumerate(loop.body) if start and ast.unparse(st).startswith(start)]
+        if len(hits) != 1:
+            raise Unsupported(f"{fn_name}: {len(hits)} statements of the loop body start with {start!r} (need exactly one)")
+        stmts = loop.body[hits[0]:]
+    else:
+        raise Unsupported(f"fragment kind {kind}")
+    if not stmts:
+        raise Unsupported(f"{fn_name}: empty fragment")
+    for st in stmts:
+        for n in ast.walk(st):
+            if isinstance(n, _NOT_IN_FRAGMENTS):
+                raise Unsupported(f"{fn_name}: {type(n).__name__} inside a fragment")
+    free: list[str] = []
+    assigned: list[str] = []
+    end = _flow(stmts, local, set(), free, assigned)
+    if kind == "after_loop":
+        if end is not None:
+            raise Unsupported(f"{fn_name}: the statements after the loop can run off the end without a return")
+        return {"stmts": stmts, "inputs": free, "outputs": None, "locals": local, "temporaries": [v for v in assigned if v not in free]}
+    inside = {id(n) for st in stmts for n in ast.walk(st)}
+    elsewhere = params | {n.id for n in ast.walk(fn) if isinstance(n, ast.Name) and id(n) not in inside}
+    temps = [v for v in assigned if v not in free and v not in elsewhere]
+    carried = [v for v in assigned if v not in temps]
+    return {"stmts": stmts, "inputs": [v for v in free if v not in assigned] + carried, "outputs": carried, "locals": local,
+            "temporaries": temps}
+
+
+def translate_fragment(source: str, fn_name: str, kind: str, start: str | None, lean_name: str, known: set[str]) -> dict:
+    """{"lean": definition text, "inputs": [...], "outputs": [...] | None}; `known` = the translated functions the fragment may call"""
     tree = ast.parse(source)
-    fns = {n.name: n for n in tree.body if isinstance(n, ast.FunctionDef)}
+    fr = fragment(tree, fn_name, kind, start)
+    tr = Translator(set(known), _module_consts(tree))
+    tr.locals = set(fr["locals"])
+    taken = {ident(k) for k in known} | {ident(lean_name)}
+    names = fr["inputs"] + fr["temporaries"]
+    if any(ident(v) in taken for v in names) or len({ident(v) for v in names}) != len(names):
+        raise Unsupported(f"{fn_name}: variable names clash after renaming: {names}")
+    body = tr.SF(fr["stmts"], "  ", frozenset(), fr["outputs"])
+    params = " ".join(f"({ident(v)} : PyVal)" for v in fr["inputs"])
+    what = (f"statements after the for loop of `{fn_name}`" if kind == "after_loop"
+            else f"body of the for loop of `{fn_name}` from the statement starting with `{start}`")
+    res = "the returned value" if fr["outputs"] is None else "(" + ", ".join(fr["outputs"] + ["broke"]) + ")"
+    doc = f"/-- fragment: {what}; inputs: {', '.join(fr['inputs'])}; result: {res} -/\n"
+    return {"lean": f"{doc}def {ident(lean_name)} {params} : PyVal :=\n  {body}\n", "inputs": fr["inputs"], "outputs": fr["outputs"]}
+
+
+def fragment_as_python(source: str, fn_name: str, kind: str, start: str | None, globs: dict):
+    """the SAME fragment as a real Python function built from the source text: `f(*inputs)` returns the fragment's returned value, or
+    the tuple `(carried…, broke)`; free functions (`_is_applicable`, …) resolve in `globs` (the module's globals).
+    Returns (function, inputs, outputs)."""
+    tree = ast.parse(source)
+    fr = fragment(tree, fn_name, kind, start)
+    params = ", ".join(fr["inputs"])
+    if fr["outputs"] is None:
+        mod = ast.parse(f"def _fragment({params}):\n    pass\n")
+        mod.body[0].body = list(fr["stmts"])
+    else:
+        # `continue` and running off the end reach the `else` of the one-shot loop, `break` skips it
+        outs = ", ".join(fr["outputs"])
+        mod = ast.parse(f"def _fragment({params}):\n    for _once in (0,):\n        pass\n    else:\n        return ({outs}, False)\n"
+                        f"    return ({outs}, True)\n")
+        mod.body[0].body[0].body = list(fr["stmts"])
+    ast.fix_missing_locations(mod)
+    ns = dict(globs)
+    exec(compile(mod, f"<fragment of {fn_name}>", "exec"), ns)  # noqa: S102
+    return ns["_fragment"], fr["inputs"], fr["outputs"]
+
+
+def _module_consts(tree: ast.Module) -> dict:
     consts = {}
     for n in tree.body:
         if isinstance(n, ast.Assign) and len(n.targets) == 1 and isinstance(n.targets[0], ast.Name):
             v = n.value
             if isinstance(v, ast.Constant) or (isinstance(v, (ast.Tuple, ast.List)) and all(isinstance(x, ast.Constant) for x in v.elts)):
                 consts[n.targets[0].id] = v
-    tr = Translator(set(names), consts)
+    return consts
+
+
+def translate(source: str, names: list[str]) -> dict[str, str]:
+    """{python function name: Lean definition text} in the order given (callees first)"""
+    tree = ast.parse(source)
+    fns = {n.name: n for n in tree.body if isinstance(n, ast.FunctionDef)}
+    tr = Translator(set(names), _module_consts(tree))
     out = {}
     for name in names:
         if name not in fns:
